@@ -157,6 +157,131 @@ def _rename(fn: ast.FunctionDef | None) -> str:
     return "RnUnknown"
 
 
+SOURCE_TOOLS = "src/mxlpy/meta/source_tools.py"
+_PYMODS = {"math": "PMath", "scipy.special": "PScipySpecial", "sympy.physics.units": "PSympyUnits"}
+_STR_SECTIONS = {"functions_source": "SecFunctions"}  # one string
+_LIST_SECTIONS = {  # lists of lines
+    "variable_source": "SecVariables",
+    "parameter_source": "SecParameters",
+    "derived_source": "SecDerived",
+    "reactions_source": "SecReactions",
+}
+
+
+def _import_scan(fn: ast.FunctionDef | None) -> str:
+    """generate_mxlpy_code_from_symbolic_repr: WHICH sections of the emitted text are searched for WHICH module
+    (coq/mxlgen/Imports.v: scan_table).  Understood: the one top-level `for` over a tuple display whose first statement is
+    `if f'{module}.' in <text> and ...`, with <text> a name bound once to "\n".join([...]) of the section variables, in
+    the form `for module in ("math", ...)` (one text) or `for module, <text> in (("math", <name>), ...)`.  Anything else:
+    None (the pin breaks)."""
+    if fn is None:
+        return "None"
+    assigns: dict[str, list[ast.expr]] = {}
+    for n in ast.walk(fn):
+        if isinstance(n, ast.Assign) and len(n.targets) == 1 and isinstance(n.targets[0], ast.Name):
+            assigns.setdefault(n.targets[0].id, []).append(n.value)
+
+    def resolve(name: str) -> list[str] | None:
+        if name in _STR_SECTIONS:
+            return [_STR_SECTIONS[name]]
+        vals = assigns.get(name, [])
+        if len(vals) != 1:
+            return None
+        v = vals[0]
+        if not (
+            isinstance(v, ast.Call)
+            and isinstance(v.func, ast.Attribute)
+            and v.func.attr == "join"
+            and isinstance(v.func.value, ast.Constant)
+            and v.func.value.value == "\n"
+            and len(v.args) == 1
+            and not v.keywords
+            and isinstance(v.args[0], ast.List)
+        ):
+            return None
+        out: list[str] = []
+        for e in v.args[0].elts:
+            if isinstance(e, ast.Name) and e.id in _STR_SECTIONS:
+                out.append(_STR_SECTIONS[e.id])
+            elif isinstance(e, ast.Starred) and isinstance(e.value, ast.Name) and e.value.id in _LIST_SECTIONS:
+                out.append(_LIST_SECTIONS[e.value.id])
+            else:
+                return None
+        return out
+
+    loops = [n for n in fn.body if isinstance(n, ast.For) and isinstance(n.iter, ast.Tuple)]
+    if len(loops) != 1:
+        return "None"
+    loop = loops[0]
+    if not (loop.body and isinstance(loop.body[0], ast.If) and not loop.orelse):
+        return "None"
+    test = loop.body[0].test
+    if not (isinstance(test, ast.BoolOp) and isinstance(test.op, ast.And) and len(test.values) == 2):
+        return "None"
+    cmp = test.values[0]
+    if not (
+        isinstance(cmp, ast.Compare)
+        and len(cmp.ops) == 1
+        and isinstance(cmp.ops[0], ast.In)
+        and ast.unparse(cmp.left) == "f'{module}.'"
+        and isinstance(cmp.comparators[0], ast.Name)
+    ):
+        return "None"
+    text_name = cmp.comparators[0].id
+    rows: list[tuple[str, list[str]]] = []
+    if isinstance(loop.target, ast.Name) and loop.target.id == "module":
+        secs = resolve(text_name)
+        for e in loop.iter.elts:
+            if not (isinstance(e, ast.Constant) and e.value in _PYMODS) or secs is None:
+                return "None"
+            rows.append((_PYMODS[e.value], secs))
+    elif (
+        isinstance(loop.target, ast.Tuple)
+        and len(loop.target.elts) == 2
+        and all(isinstance(t, ast.Name) for t in loop.target.elts)
+        and loop.target.elts[0].id == "module"  # type: ignore[attr-defined]
+        and loop.target.elts[1].id == text_name  # type: ignore[attr-defined]
+    ):
+        for e in loop.iter.elts:
+            if not (isinstance(e, ast.Tuple) and len(e.elts) == 2 and isinstance(e.elts[0], ast.Constant) and e.elts[0].value in _PYMODS and isinstance(e.elts[1], ast.Name)):
+                return "None"
+            secs = resolve(e.elts[1].id)
+            if secs is None:
+                return "None"
+            rows.append((_PYMODS[e.elts[0].value], secs))
+    else:
+        return "None"
+    return "(Some [" + "; ".join(f"({m}, [{'; '.join(secs)}])" for m, secs in rows) + "])"
+
+
+def _call_defaults(fn: ast.FunctionDef | None) -> str:
+    """fn_to_sympy: how the arguments of a translated call are bound to the callee's parameters
+    (coq/mxlgen/CallDefaults.v: df_mode)."""
+    if fn is None:
+        return "DfUnknown"
+    nodes = list(ast.walk(fn))
+    if not any(isinstance(n, ast.Assign) and ast.unparse(n) == "fn_args = [str(arg.arg) for arg in fn_def.args.args]" for n in nodes):
+        return "DfUnknown"
+    zips = sorted(ast.unparse(n) for n in nodes if isinstance(n, ast.Call) and isinstance(n.func, ast.Name) and n.func.id == "zip")
+    uses_defaults = any(isinstance(n, ast.Attribute) and n.attr in ("defaults", "kw_defaults") for n in nodes)
+    guards = [
+        ast.unparse(n.test)
+        for n in nodes
+        if isinstance(n, ast.If) and any(isinstance(c, ast.Call) and isinstance(c.func, ast.Name) and c.func.id == "zip" for b in n.body for c in ast.walk(b))
+    ]
+    if guards == ["model_args is not None"] and zips == ["zip(fn_args, model_args, strict=True)"] and not uses_defaults:
+        return "DfRefuse"
+    srcs = {ast.unparse(n) for n in nodes if isinstance(n, (ast.Assign, ast.NamedExpr))}
+    if (
+        sorted(guards) == ["(missing := fn_args[len(model_args):])", "model_args is not None"]
+        and zips == ["zip(fn_args, model_args, strict=False)", "zip(missing, defaults, strict=False)"]
+        and "defaults = fn_def.args.defaults" in srcs
+        and "(missing := fn_args[len(model_args):])" in srcs
+    ):
+        return "DfFront"  # the shape of seeded change C11-6
+    return "DfUnknown"
+
+
 FRESH_HELPERS = ("_positional_fn", "_register_fn", "_parameter_names")
 EMIT_HELPERS = ("_number_literal", "_unit_literal")  # fixes/C11-emitted-numbers-imports-units.diff
 
@@ -177,6 +302,8 @@ def extract(repo=None) -> tuple[dict[str, str], dict[str, str]]:
         "interchange": "IcUnknown",
         "rename": "RnUnknown",
         "emit": "EmUnknown",
+        "import_scan": "None",
+        "call_defaults": "DfUnknown",
     }
     texts: dict[str, str] = {}
     try:
@@ -227,6 +354,11 @@ def extract(repo=None) -> tuple[dict[str, str], dict[str, str]]:
     facts["param_check"] = _param_check(_find(t1, "_parameter_names"))
     facts["interchange"] = _interchange(t1)
     facts["rename"] = _rename(_find(t1, "_fn_to_symbolic_repr"))
+    facts["import_scan"] = _import_scan(_find(t1, "generate_mxlpy_code_from_symbolic_repr"))
+    try:
+        facts["call_defaults"] = _call_defaults(_find(ast.parse((repo / SOURCE_TOOLS).read_text()), "fn_to_sympy"))
+    except (OSError, SyntaxError):
+        pass
     exp = exp_all.get(facts["register"], {})
     cg = ["_codegen_variable", "_codegen_parameter", "generate_mxlpy_code_from_symbolic_repr", "sympy_to_python_fn"]
     if facts["register"] == "RegFresh":
